@@ -69,7 +69,7 @@ class Raise(Exception):
 
 _OPNAME = {ast.Add: '+', ast.Sub: '-', ast.Mult: '*', ast.FloorDiv: '//', ast.Mod: '%', ast.LShift: '<<', ast.RShift: '>>',
            ast.BitAnd: '&', ast.BitOr: '|', ast.BitXor: '^', ast.Div: '/', ast.Pow: '**'}
-_STR_METHODS = ('rstrip', 'lstrip', 'strip', 'startswith', 'endswith', 'lower', 'upper', 'isdigit', 'replace', 'join', 'split', 'find')
+_STR_METHODS = ('rstrip', 'lstrip', 'strip', 'startswith', 'endswith', 'lower', 'upper', 'isdigit', 'replace', 'join', 'split', 'find', 'count', 'rfind', 'index')
 
 
 class Path:
@@ -165,6 +165,9 @@ class Evaluator:
                 return ('or', (a, b))
             if isinstance(a, str) and isinstance(b, str) and isinstance(e.op, ast.Add):
                 return a + b
+            if isinstance(e.op, ast.Mult) and ((isinstance(a, str) and isinstance(b, int)) or (isinstance(a, int) and isinstance(b, str))) and \
+                    not isinstance(a, bool) and not isinstance(b, bool) and (a if isinstance(a, int) else b) < 4096:
+                return a * b
             if isinstance(a, str) and isinstance(e.op, ast.Mod) and is_concrete(b):
                 try:
                     return a % b
